@@ -326,6 +326,25 @@ func findLoopAlias(fn *ssa.Function) []ssa.Instruction {
 	return out
 }
 
+// findCopyIntoEmpty: copy(dst, src) where dst was made with a constant length 0 (and is not re-sliced): a no-op.
+func findCopyIntoEmpty(fn *ssa.Function) []ssa.Instruction {
+	var out []ssa.Instruction
+	allInstrs(fn, func(in ssa.Instruction) {
+		c, ok := isBuiltinCall(in, "copy")
+		if !ok || len(c.Call.Args) != 2 {
+			return
+		}
+		ms, ok := c.Call.Args[0].(*ssa.MakeSlice)
+		if !ok {
+			return
+		}
+		if k, ok := ms.Len.(*ssa.Const); ok && k.Value != nil && k.Int64() == 0 {
+			out = append(out, in)
+		}
+	})
+	return out
+}
+
 // ---- fixtures ------------------------------------------------------------------------------------
 
 var fixtureFuncs map[string]*ssa.Function
